@@ -16,8 +16,11 @@ def main():
     if order == 'reverse':
         items.reverse()
     out = {}
+    variants = batch.get('variants') or []
     for idx, text in items:
         for cfg in batch['configs']:
+            if idx < len(variants) and variants[idx]:
+                X.compile_one(variants[idx], cfg[0], bool(cfg[1]))
             out['%d:%d:%d' % (idx, cfg[0], int(cfg[1]))] = hashes(
                 X.compile_one(text, cfg[0], bool(cfg[1])))
     # executions: run the first config of every accepted text
